@@ -485,7 +485,25 @@ func c20Recv(rt *rapid.T, typ string) V {
 	return refint.BoolV(rapid.Bool().Draw(rt, "brecv"))
 }
 
+// c20BigArgs: an array of 100 integers, an object of 100 keys, an array nested 70 levels deep.
+var c20BigArgs = func() []V {
+	ints := make([]V, 100)
+	obj := map[string]V{}
+	for i := range ints {
+		ints[i] = refint.IntV(int64(i + 1))
+		obj[fmt.Sprintf("k%03d", i)] = refint.IntV(int64(i))
+	}
+	deep := refint.StrV("leaf")
+	for i := 0; i < 70; i++ {
+		deep = refint.ArrV([]V{deep})
+	}
+	return []V{refint.ArrV(ints), refint.ObjV(obj), deep}
+}()
+
 func c20Arg(rt *rapid.T) V {
+	if rapid.IntRange(0, 11).Draw(rt, "bigArg") == 0 {
+		return rapid.SampledFrom(c20BigArgs).Draw(rt, "big")
+	}
 	return rapid.SampledFrom([]V{
 		refint.IntV(5), refint.IntV(-1), refint.FloatV(1.5), refint.StrV("arg"), refint.StrV(""), refint.BoolV(true), refint.NilV(), refint.StrV("x &amp; &lt;y&gt;"),
 		refint.ArrV(nil), refint.ArrV([]V{refint.IntV(1), refint.ArrV([]V{refint.StrV("in")})}),
@@ -561,7 +579,7 @@ func c20NonTrivial(ops []regOp) bool {
 
 func TestC20_StateMachine(t *testing.T) {
 	c := harness.New(t, "C20", "state-machine",
-		"random histories (rapid state machine, length up to ~40) after a registry reset: Register{Str,Arr,Int,Float,Bool}(name) with name in {f, g, a built-in name of that type, a built-in name of another type, (arrays) a function returning an unsupported kind}; calls on receivers of the five types as literals or variables with 0..3 arguments of any kind incl. nested arrays/objects and nil (one call in eight with an argument, at any position, whose evaluation fails: the render must fail without any function being invoked), directly and through a loaded template; LoadTemplates at any point. Model: registry type -> name -> id of the first registration; Register errors iff the pair is present and never replaces; a call yields the built-in (custom closure not invoked) if one exists, else the registered closure must have received the receiver and arguments as the plain Go values (int, int64, float64, string, bool, nil, []any, map[string]any recursively; empty array = length 0) and its result must render like the same Go value passed as data (also by index/member access into returned []any with nested maps), else an error naming the function and the receiver type. Non-trivial: one name registered on >= 2 types, a rejected duplicate, calls before and after LoadTemplates. Distinct by hash of the history.")
+		"random histories (rapid state machine, length up to ~40) after a registry reset: Register{Str,Arr,Int,Float,Bool}(name) with name in {f, g, a built-in name of that type, a built-in name of another type, (arrays) a function returning an unsupported kind}; calls on receivers of the five types as literals or variables with 0..3 arguments of any kind incl. nested arrays/objects, nil, an array of 100 elements, an object of 100 keys and an array nested 70 deep (one call in eight with an argument, at any position, whose evaluation fails: the render must fail without any function being invoked), directly and through a loaded template; LoadTemplates at any point. Model: registry type -> name -> id of the first registration; Register errors iff the pair is present and never replaces; a call yields the built-in (custom closure not invoked) if one exists, else the registered closure must have received the receiver and arguments as the plain Go values (int, int64, float64, string, bool, nil, []any, map[string]any recursively; empty array = length 0) and its result must render like the same Go value passed as data (also by index/member access into returned []any with nested maps), else an error naming the function and the receiver type. Non-trivial: one name registered on >= 2 types, a rejected duplicate, calls before and after LoadTemplates. Distinct by hash of the history.")
 	defer c.Finish()
 	runRapid(t, c, 1500, 24000, func(rt *rapid.T) {
 		m := newRegModel()
